@@ -45,6 +45,39 @@ def ref_isolated(scn, status_row):
     return set(n['id'] for n in scn['nodes'] if n['type'] == 'J' and n['id'] not in reach)
 
 
+def undetermined_heads(scn, wn=None):
+    """junctions whose head appears in no equation of the initial model: every link at the junction is closed, an active PRV leaving it, an active
+    PSV arriving at it or an active FCV, and (demand-driven) the junction has no pressure-dependent demand equation"""
+    if scn['options'].get('demand_model', 'DD') != 'DD':
+        return []
+    out = []
+    for n in scn['nodes']:
+        if n['type'] != 'J':
+            continue
+        links = [l for l in scn['links'] if n['id'] in (l['a'], l['b'])]
+        if not links:
+            continue
+        blind = True
+        for l in links:
+            st = None
+            if wn is not None:
+                try:
+                    st = int(wn.get_link(l['id']).status)      # 0 closed, 1 open, 2 active - at the moment run_sim raised
+                except Exception:  # noqa
+                    st = None
+            if st == 0 or (st is None and l.get('status') == 'CLOSED'):
+                continue                                        # a closed link gives the junction's head no equation
+            if l['type'] == 'valve' and (st == 2 or (st is None and l.get('status', 'ACTIVE') == 'ACTIVE')):
+                vt = l.get('vtype')
+                if vt == 'FCV' or (vt == 'PRV' and l['a'] == n['id']) or (vt == 'PSV' and l['b'] == n['id']):
+                    continue
+            blind = False
+        if blind:
+            out.append(n['id'])
+    return out
+
+
+
 # ------------------------------------------------------------------------------------------------ C01
 def c01(scn, tables, c, rn=None):
     viol = []
